@@ -44,9 +44,9 @@ Verdicts(e) ==
   ELSE IF ~e.ok THEN {<<"C07:OK()", <<>>, <<>>>>}
   ELSE LET nv == Len(e.vars)  np == Len(e.pars)  zero == [i \in 1..nv |-> 0] IN
        UNION { LET ctxOK == \A i \in 1..Len(e.cs) : IsCtx(e.cs[i], e) => SatC(e.cs[i], EnvOf(e, zero, p))
-                   F == {x \in Tuples(0..BMax, nv) : \A i \in 1..Len(e.cs) : SatC(e.cs[i], EnvOf(e, x, p))}
+                   F == {x \in Tuples(0..e.bmax, nv) : \A i \in 1..Len(e.cs) : SatC(e.cs[i], EnvOf(e, x, p))}
                    r == Eval(e.tree, EnvOf(e, zero, p))
-                   border(x) == \E i \in 1..nv : x[i] = BMax
+                   border(x) == \E i \in 1..nv : x[i] = e.bmax
                IN IF ~ctxOK THEN {}
                   ELSE IF r[1] = "ill-formed" THEN {<<"C07:tree-uses-undeclared-parameter", p, <<>>>>}
                   ELSE IF r[1] = "bot" THEN (IF F = {} THEN {} ELSE {<<"C07:bottom-but-feasible", p, CHOOSE x \in F : \A y \in F : ~LexLess(y, x)>>})
